@@ -175,7 +175,15 @@ func newC19World(c *mon.Ctx, g *model.Gen, algs [2]string) (*c19World, error) {
 		}
 	}
 	tok := func(x psatoken.IClaims, k keys.Pair) ([]byte, error) {
-		return (&psatoken.Evidence{Claims: x}).Sign(k.Signer)
+		e := &psatoken.Evidence{Claims: x}
+		b, err := e.Sign(k.Signer)
+		if err != nil {
+			// a working signer and encodable claims: signing must succeed - and if it
+			// reports failure nothing may verify afterwards
+			verifies := e.Verify(k.Pub) == nil
+			c.Violation("C19/sign-failed-with-working-signer/"+k.Name, fmt.Sprintf("Sign with a working %s signer and encodable claims failed: %v (Verify on that Evidence afterwards succeeds: %v)", k.Name, err, verifies), nil)
+		}
+		return b, err
 	}
 	if w.tokens["valid-by-0"], err = tok(w.claims["valid-t0"], w.k[0]); err != nil {
 		return nil, err
